@@ -233,7 +233,7 @@ func init() {
 					if g.read != nil {
 						rp = accessPath(g.read.Val)
 					}
-					okR := g.read != nil && strings.Contains(rp, "GetOrCreateResourceNode(rule.RefResource") && strings.Contains(rp, "GetOrCreateResourceNode(rule.Resource")
+					okR := g.read != nil && strings.Contains(rp, "GetOrCreateResourceNode({Rule}.RefResource") && strings.Contains(rp, "GetOrCreateResourceNode({Rule}.Resource")
 					c.Check(okW && okR, key, g.reuse.Pos(), "reuse: write side nil=%v; read side %s (want derived from the node selected by relation strategy)", okW, rp)
 				} else {
 					nStandalone++
@@ -266,12 +266,12 @@ func init() {
 				for i, e := range phi.Edges {
 					p := accessPath(e)
 					fs := canonFacts(phi.Block().Preds[i])
-					guardEq := fs[fmt.Sprintf("%d == rule.RelationStrategy", assoc)]
-					guardNe := fs[fmt.Sprintf("%d != rule.RelationStrategy", assoc)]
-					if strings.Contains(p, "GetOrCreateResourceNode(rule.RefResource") && guardEq {
+					guardEq := fs[fmt.Sprintf("%d == {Rule}.RelationStrategy", assoc)]
+					guardNe := fs[fmt.Sprintf("%d != {Rule}.RelationStrategy", assoc)]
+					if strings.Contains(p, "GetOrCreateResourceNode({Rule}.RefResource") && guardEq {
 						okRef = true
 					}
-					if strings.Contains(p, "GetOrCreateResourceNode(rule.Resource") && guardNe {
+					if strings.Contains(p, "GetOrCreateResourceNode({Rule}.Resource") && guardNe {
 						okRes = true
 					}
 				}
@@ -286,7 +286,7 @@ func init() {
 				for _, r := range returnsOf(s) {
 					p := accessPath(r.Results[0])
 					fs := canonFacts(r.Block())
-					if strings.Contains(p, "GetResourceNode(rule.RefResource)") && fs[fmt.Sprintf("%d == rule.RelationStrategy", assoc)] {
+					if strings.Contains(p, "GetResourceNode({Rule}.RefResource)") && fs[fmt.Sprintf("%d == {Rule}.RelationStrategy", assoc)] {
 						ok = true
 					}
 				}
@@ -319,7 +319,7 @@ func init() {
 						notReused = true
 					}
 				}
-				ok := strings.HasSuffix(recv, ".boundStat.writeOnlyMetric") && ev == "MetricEventPass" && cnt == "int64(ctx.Input.BatchCount)" && notReused
+				ok := strings.HasSuffix(recv, ".boundStat.writeOnlyMetric") && ev == "MetricEventPass" && cnt == "int64({EntryContext}.Input.BatchCount)" && notReused
 				c.Check(ok, key, ci.Pos(), "records %s(%s, %s) under not-reused=%v (want writeOnlyMetric.AddCount(MetricEventPass, batch) exactly when the statistic is standalone)", recv, ev, cnt, notReused)
 			}
 			if n != 1 {
@@ -344,7 +344,7 @@ func init() {
 					sum, _ = ci.(*ssa.Call)
 					recv := accessPath(cc.Value)
 					ev := constArgName(cc.Args[0])
-					ok := strings.HasSuffix(recv, ".boundStat.readOnlyMetric") && (strings.HasPrefix(recv, "d.BoundOwner()") || strings.HasPrefix(recv, "d.owner")) && ev == "MetricEventPass"
+					ok := strings.HasSuffix(recv, ".boundStat.readOnlyMetric") && (strings.HasPrefix(recv, "{RejectTrafficShapingChecker}.BoundOwner()") || strings.HasPrefix(recv, "{RejectTrafficShapingChecker}.owner")) && ev == "MetricEventPass"
 					c.Check(ok, fnKey(f)+" / reads", ci.Pos(), "reads %s.GetSum(%s) (want the bound read-only metric's MetricEventPass sum)", recv, ev)
 				}
 			}
@@ -363,9 +363,9 @@ func init() {
 				key := fmt.Sprintf("%s / blocked#%d", fnKey(f), nb)
 				found := false
 				for fact := range canonFacts(ci.Block()) {
-					if strings.Contains(fact, sumP) && strings.Contains(fact, "batchCount") && strings.Contains(fact, "threshold") && strings.Contains(fact, " + ") {
+					if strings.Contains(fact, sumP) && strings.Contains(fact, "{uint32}") && strings.Contains(fact, "{float64}") && strings.Contains(fact, " + ") {
 						// threshold on the small side: "threshold < (sum + batch)" or "threshold <= ..."
-						if strings.HasPrefix(fact, "threshold <") {
+						if strings.HasPrefix(fact, "{float64} <") {
 							found = true
 						}
 					}
@@ -382,7 +382,7 @@ func init() {
 				fs := canonFacts(r.Block())
 				ok := false
 				for fact := range fs {
-					if strings.Contains(fact, sumP) && strings.Contains(fact, "threshold") && strings.HasSuffix(fact, "<= threshold") || strings.HasSuffix(fact, "< threshold") && strings.Contains(fact, sumP) {
+					if strings.Contains(fact, sumP) && strings.HasSuffix(fact, "<= {float64}") || strings.HasSuffix(fact, "< {float64}") && strings.Contains(fact, sumP) {
 						ok = true
 					}
 					if (strings.HasPrefix(fact, "nil == ") || strings.HasSuffix(fact, " == nil")) && strings.Contains(fact, "readOnlyMetric") {
@@ -426,7 +426,7 @@ func init() {
 					}
 					c.Check(ok && strings.Contains(p, "canPassCheck"), key, r.Pos(), "early return of %s under [%s] (want: the controller's own result, status == Blocked)", p, factList(fs))
 				} else {
-					c.Check(p == "ctx.RuleCheckResult", key, r.Pos(), "after all controllers were visited the context's pass result is returned (got %s)", p)
+					c.Check(p == "{EntryContext}.RuleCheckResult", key, r.Pos(), "after all controllers were visited the context's pass result is returned (got %s)", p)
 				}
 			}
 			// sleeping
@@ -501,7 +501,7 @@ func init() {
 				}
 				v := accessPath(stripConv(d))
 				fs := canonFacts(ci.Block())
-				ok := fs[v+" <= c.maxQueueingTimeNs"] || fs[v+" < c.maxQueueingTimeNs"]
+				ok := fs[v+" <= {ThrottlingChecker}.maxQueueingTimeNs"] || fs[v+" < {ThrottlingChecker}.maxQueueingTimeNs"]
 				c.Check(ok, key, ci.Pos(), "wait %s is bounded by a dominating comparison with c.maxQueueingTimeNs: %v", v, ok)
 			}
 			if n == 0 {
@@ -516,16 +516,16 @@ func init() {
 				}
 				na++
 				fs := canonFacts(ci.Block())
-				okT := fs["0 < threshold"]
-				okB := fs["float64(batchCount) <= threshold"]
+				okT := fs["0 < {float64}"]
+				okB := fs["float64({uint32}) <= {float64}"]
 				c.Check(okT && okB, fmt.Sprintf("%s / atomic.%s#%d / after-early-blocks", fnKey(f), an, na), ci.Pos(), "pacing state is touched only when threshold>0 (%v) and batch<=threshold (%v)", okT, okB)
 			}
 			// the early branches block
 			for _, ci := range callsIn(f) {
 				if bt, ok := blockedResultCall(ci); ok {
 					fs := canonFacts(ci.Block())
-					if fs["threshold <= 0"] || fs["threshold < float64(batchCount)"] {
-						c.Check(bt == "BlockTypeFlow", fnKey(f)+" / early-block / "+map[bool]string{true: "threshold<=0", false: "batch>threshold"}[fs["threshold <= 0"]], ci.Pos(), "blocked with %s", bt)
+					if fs["{float64} <= 0"] || fs["{float64} < float64({uint32})"] {
+						c.Check(bt == "BlockTypeFlow", fnKey(f)+" / early-block / "+map[bool]string{true: "threshold<=0", false: "batch>threshold"}[fs["{float64} <= 0"]], ci.Pos(), "blocked with %s", bt)
 					}
 				}
 			}
